@@ -11,21 +11,30 @@
 //                 lock-step bursts that fit the queues (must all arrive at
 //                 every neighbour), free-running bursts that overflow them
 //                 (drops allowed), buffer resizes under traffic, nodes
-//                 joining/leaving and pipes being closed under traffic.
+//                 joining/leaving and pipes being closed under traffic; a
+//                 paused receiver overflows its receive queue alone (at
+//                 least RECVBUF messages must survive); a last
+//                 flow-controlled phase during which pipes leave / arrive
+//                 (mesh_event_phase): untouched pairs must lose nothing.
 //   mode raw    : a raw BUS socket in the middle of 2-4 leaves, forwarding by
 //                 a harness thread (recv -> send unchanged, total forwarding
 //                 order known) or by nng_device (reflector / two-socket
-//                 bridge); direct raw sends with no header, with a header
-//                 naming an attached pipe, with a header naming no pipe.
+//                 bridge, all judged alike: lock-step, flow-controlled,
+//                 probe after overflow); direct raw sends with no header,
+//                 with a header naming an attached pipe, with a header
+//                 naming a pipe that is not attached to this socket (must
+//                 reach everybody), with a header that is not one word.
 //   mode noblock: raw TCP/IPC peers that complete the SP handshake as BUS and
 //                 then stop reading; every blocking / aio send returns 0
 //                 (bounded only by the watchdog); afterwards the stalled
 //                 peers read what the wire carries: whole frames, increasing
 //                 seqs, no duplicates, and the pipe is offered new messages.
 #include "vfh.h"
+#include "core/verif.h"
 #include <errno.h>
 #include <poll.h>
 #include <pthread.h>
+#include <stdarg.h>
 #include <stdatomic.h>
 #include <sys/socket.h>
 #include <unistd.h>
@@ -55,7 +64,7 @@ typedef struct node {
 	_Atomic long adds, rems;
 	pthread_t  rth, sth;
 	bool       rrun, srun;
-	_Atomic int rstop;
+	_Atomic int rstop, rpause, rparked;
 	rec       *log;
 	_Atomic long     nlog;
 	_Atomic int      sstop;
@@ -70,7 +79,8 @@ typedef struct node {
 	bool             srun2;
 	int              flow_w;       // > 0: flow-controlled sender, window
 	int              flow_n;
-	uint32_t         flow_mask;
+	_Atomic uint32_t flow_mask;    // receivers that must log everything
+	bool             pipekeyed;    // links of this node were re-made
 	long             flow_base[MAXN];
 	_Atomic int      sdone;
 	_Atomic long     sent;
@@ -112,6 +122,40 @@ static int g_abort;
 	} while (0)
 
 static __thread int t_second; // this thread sends the node's second stream
+static const char  *g_flow_what = "flow-controlled"; // discriminator of flow verdicts
+static const char  *g_dev_stat;  // delivery stat of the nng_device variants
+// closes are asynchronous (nni_pipe_close hands the pipe to the reaper): a
+// closed dialer's pipes are really detached once every reap that was pending
+// has been done
+static _Atomic long g_reaps_pending;
+static _Atomic int  g_flow_abandon; // give up the running flow phase, no verdict
+static void
+ev_hook(int ev, const void *obj, uintptr_t a, uintptr_t b)
+{
+	(void) obj;
+	(void) a;
+	(void) b;
+	if (ev == NNI_VE_REAP_BEGIN) atomic_fetch_add(&g_reaps_pending, 1);
+	if (ev == NNI_VE_REAP_END) atomic_fetch_sub(&g_reaps_pending, 1);
+}
+static char         g_ev_note[256]; // pipe events of the running flow phase (for the report)
+static pthread_mutex_t evmtx = PTHREAD_MUTEX_INITIALIZER;
+static void
+ev_note(const char *fmt, ...)
+{
+	va_list ap;
+	pthread_mutex_lock(&evmtx);
+	size_t l = strlen(g_ev_note);
+	va_start(ap, fmt);
+	if (l < sizeof(g_ev_note) - 1) vsnprintf(g_ev_note + l, sizeof(g_ev_note) - l, fmt, ap);
+	va_end(ap);
+	pthread_mutex_unlock(&evmtx);
+}
+// raw sends whose header is not one word: what is left of the header travels
+// in front of the body (expected offset per seq of the raw socket's 2nd stream)
+static uint8_t      odd_off[SEQCAP];
+static _Atomic int  g_odd_sent;
+static _Atomic long odd_leaked, odd_plain;
 static _Atomic long  cooked_hdr_sends;
 
 static uint64_t
@@ -197,6 +241,8 @@ node_set_bufs(node *n, int sendbuf, int recvbuf)
 // joiners only dial, and all dialers are closed before any socket is.
 static nng_dialer dialers[256];
 static int        ndialers;
+static nng_listener lnk_l[MAXN][MAXN]; // listener / dialer of the link x-y
+static nng_dialer   lnk_d[MAXN][MAXN];
 
 static void
 close_dialers(void)
@@ -218,8 +264,25 @@ link_nodes(node *L, node *D, int tran)
 	if ((rv = nng_dial(D->s, durl, &d, 0)) != 0) vf_harness_fail("dial %s: %s", durl, nng_strerror(rv));
 	if (ndialers >= 256) vf_harness_fail("too many dialers");
 	dialers[ndialers++] = d;
+	lnk_l[L->id][D->id] = lnk_l[D->id][L->id] = l;
+	lnk_d[L->id][D->id] = lnk_d[D->id][L->id] = d;
 	L->degree++;
 	D->degree++;
+}
+
+// x's pipe of the link x-peer (every link has its own listener and dialer)
+static nng_pipe
+find_pipe(node *x, int peer)
+{
+	nng_pipe res = NNG_PIPE_INITIALIZER;
+	int      lid = nng_listener_id(lnk_l[x->id][peer]), did = nng_dialer_id(lnk_d[x->id][peer]);
+	pthread_mutex_lock(x->pmtx);
+	for (int i = 0; i < x->npipes; i++) {
+		nng_pipe p = x->pipes[i];
+		if ((lid > 0 && nng_listener_id(nng_pipe_listener(p)) == lid) || (did > 0 && nng_dialer_id(nng_pipe_dialer(p)) == did)) res = p;
+	}
+	pthread_mutex_unlock(x->pmtx);
+	return res;
 }
 
 static void
@@ -253,7 +316,25 @@ record(node *n, nng_msg *m)
 		}
 	}
 	if ((rv = vf_body_check(nng_msg_body(m), nng_msg_len(m), &tag, &seq)) != 0) {
+		// a raw send with a header of 1-3 / 8 / 12 bytes: what is left of the
+		// header after the origin word was taken is in front of the body
+		if (atomic_load(&g_odd_sent) && g_fwd_id >= 0) {
+			static const size_t offs[] = { 1, 2, 3, 4, 8 };
+			for (int i = 0; i < 5; i++) {
+				size_t o = offs[i];
+				if (nng_msg_len(m) > o && vf_body_check((uint8_t *) nng_msg_body(m) + o, nng_msg_len(m) - o, &tag, &seq) == 0 && tag == (TAGBASE | (uint32_t) (g_fwd_id + MAXN)) && seq < SEQCAP && odd_off[seq] == o) {
+					atomic_fetch_add(&odd_leaked, 1);
+					return;
+				}
+			}
+		}
 		VIOL("corrupt", g_mode, "%s: node %d received a body of %zu bytes that fails its self-check (%d)", g_mode, n->id, nng_msg_len(m), rv);
+		return;
+	}
+	if (g_fwd_id >= 0 && tag == (TAGBASE | (uint32_t) (g_fwd_id + MAXN))) {
+		// the same kind of send arrived without its header rest: the property
+		// does not say what becomes of such a header (recorded only)
+		atomic_fetch_add(&odd_plain, 1);
 		return;
 	}
 	if ((tag & 0xffffff00u) != TAGBASE || (tag & 0xff) >= NS || seq >= SEQCAP) {
@@ -286,6 +367,12 @@ receiver_main(void *arg)
 	while (!atomic_load(&n->rstop)) {
 		nng_msg *m = NULL;
 		int      rv;
+		if (atomic_load(&n->rpause)) {
+			atomic_store(&n->rparked, 1);
+			vf_usleep(200);
+			continue;
+		}
+		atomic_store(&n->rparked, 0);
 		if (aio) {
 			nng_socket_recv(n->s, aio);
 			nng_aio_wait(aio);
@@ -413,11 +500,12 @@ flow_wait(node *n, long need)
 	for (;;) {
 		int missing = -1;
 		for (int q = 0; q < MAXN; q++) {
-			if ((n->flow_mask & (1u << q)) && atomic_load(&N[q].cnt_from[n->id]) - n->flow_base[q] < need) missing = q;
+			if ((atomic_load(&n->flow_mask) & (1u << q)) && atomic_load(&N[q].cnt_from[n->id]) - n->flow_base[q] < need) missing = q;
 		}
 		if (missing < 0) return true;
+		if (atomic_load(&g_flow_abandon)) return false;
 		if (vf_now_ns() > end) {
-			VIOL("not-offered", "flow-controlled", "%s: all nodes send at once, each keeping at most its share of the smallest queue on its paths outstanding (node %d: window %d, sendbuf %d); peer %d (recvbuf %d) logged only %ld of the first %ld message(s) after 30 s: one was dropped although no queue could be full", g_mode, n->id, n->flow_w, n->sendbuf, missing, N[missing].recvbuf, atomic_load(&N[missing].cnt_from[n->id]) - n->flow_base[missing], need);
+			VIOL("not-offered", g_flow_what, "%s: all nodes send at once, each keeping at most its share of the smallest queue on its paths outstanding (node %d: window %d, sendbuf %d); peer %d (recvbuf %d) logged only %ld of the first %ld message(s) after 30 s: one was dropped although no queue could be full%s%s", g_mode, n->id, n->flow_w, n->sendbuf, missing, N[missing].recvbuf, atomic_load(&N[missing].cnt_from[n->id]) - n->flow_base[missing], need, g_ev_note[0] ? "; pipe events on OTHER links during the phase:" : "", g_ev_note);
 			return false;
 		}
 		vf_usleep(50);
@@ -444,7 +532,12 @@ sender_main(void *arg)
 			if (m >= n->flow_w && !flow_wait(n, m - n->flow_w + 1)) break;
 			send_one(n, pick_size(&r, 0), n->sstyle == 3 ? 2 : n->sstyle, aios[0], false, 0);
 		}
-		if (m == n->flow_n && flow_wait(n, m)) vf_stat("flow_delivered", m * __builtin_popcount(n->flow_mask));
+		if (m == n->flow_n && flow_wait(n, m)) {
+			long got = m * __builtin_popcount(atomic_load(&n->flow_mask));
+			vf_stat("flow_delivered", got);
+			if (g_dev_stat) vf_stat(g_dev_stat, got);
+			if (!strcmp(g_flow_what, "flow-with-pipe-event")) vf_stat("flow_with_pipe_event_delivered", got);
+		}
 		left = 0;
 	}
 	while (left > 0 && !atomic_load(&n->sstop)) {
@@ -556,6 +649,7 @@ lockstep(int s, int b, vf_rng *r, const char *what)
 	for (int i = 0; i < b; i++) send_one(&N[s], pick_size(r, 0), (int) vf_below(r, 3), NULL, false, 0);
 	bool ok = window_wait(s, mask, b, what);
 	if (ok) vf_stat("lockstep_delivered", (long) b * __builtin_popcount(mask));
+	if (ok && g_dev_stat) vf_stat(g_dev_stat, (long) b * __builtin_popcount(mask));
 	return ok;
 }
 
@@ -613,8 +707,8 @@ barrier(uint32_t senders, int retry_ms, int tries)
 // All nodes in 'senders' with a window >= 1 send 'nmsg' messages each at the
 // same time, flow-controlled (see flow_wait).  The paths must be idle when
 // this starts.  Returns false after a verdict.
-static bool
-flow_phase(uint32_t senders, const int *w, int nmsg)
+static uint32_t
+flow_start(uint32_t senders, const int *w, int nmsg, uint32_t excl)
 {
 	uint32_t run = 0;
 	for (int s = 0; s < MAXN; s++) {
@@ -622,7 +716,7 @@ flow_phase(uint32_t senders, const int *w, int nmsg)
 		node *x      = &N[s];
 		x->flow_w    = w[s];
 		x->flow_n    = nmsg;
-		x->flow_mask = expect_mask(s);
+		atomic_store(&x->flow_mask, expect_mask(s) & ~excl);
 		x->burst_n   = 0;
 		for (int q = 0; q < MAXN; q++) x->flow_base[q] = atomic_load(&N[q].cnt_from[s]);
 		run |= 1u << s;
@@ -630,6 +724,13 @@ flow_phase(uint32_t senders, const int *w, int nmsg)
 	for (int s = 0; s < MAXN; s++) {
 		if (run & (1u << s)) start_sender(&N[s]);
 	}
+	return run;
+}
+
+static bool
+flow_phase(uint32_t senders, const int *w, int nmsg)
+{
+	uint32_t run = flow_start(senders, w, nmsg, 0);
 	for (int s = 0; s < MAXN; s++) {
 		if (run & (1u << s)) {
 			join_sender(&N[s]);
@@ -718,7 +819,7 @@ analyze(tally *t)
 				pl[from][i].last = seq;
 				t->order_checked++;
 			}
-			if (!g_pipekeyed) {
+			if (!g_pipekeyed && !n->pipekeyed) {
 				if ((int64_t) seq < last[from]) {
 					VIOL("reordered", "sender", "%s: node %d received seq %u after seq %lld of stream %d", g_mode, q, seq, (long long) last[from], from);
 				}
@@ -773,6 +874,10 @@ reset_case(void)
 	memset(dexcl, -1, sizeof(dexcl));
 	for (int i = 0; i < MAXN; i++) atomic_store(&pipe_of[i], 0);
 	fcount      = 0;
+	g_flow_what = "flow-controlled";
+	g_dev_stat  = NULL;
+	memset(odd_off, 0, sizeof(odd_off));
+	atomic_store(&g_odd_sent, 0);
 	g_pipekeyed = false;
 	g_fwd_known = false;
 	g_fwd_id    = -1;
@@ -823,6 +928,232 @@ mesh_windows(int n, int stale, int *w)
 			if (share < w[s]) w[s] = share;
 		}
 	}
+}
+
+// Overflow that is provably on the RECEIVE side: receiver q does not receive
+// while a neighbour a sends exactly SENDBUF(a) messages on an idle path (they
+// all fit a's queue for that pipe, so a drops none).  q's receive queue was
+// empty and nobody else sends: at least min(burst, RECVBUF(q)) of them must
+// be delivered once q receives again; the rest was dropped whole at q.
+static bool
+recv_overflow_phase(int n, vf_rng *r)
+{
+	int ca[MAXN * MAXN], cq[MAXN * MAXN], nc = 0;
+	for (int a = 0; a < n; a++) {
+		for (int q = 0; q < n; q++) {
+			if (a != q && expect[a][q] && N[a].sendbuf >= N[q].recvbuf + 2) ca[nc] = a, cq[nc++] = q;
+		}
+	}
+	if (nc == 0) return true;
+	int   x = (int) vf_below(r, (uint32_t) nc), a = ca[x], q = cq[x], b = N[a].sendbuf;
+	node *Q = &N[q];
+	atomic_store(&Q->rpause, 1);
+	uint64_t end = vf_now_ns() + 5000000000ull;
+	while (!atomic_load(&Q->rparked) && vf_now_ns() < end) vf_usleep(100);
+	if (!atomic_load(&Q->rparked)) {
+		atomic_store(&Q->rpause, 0);
+		return true;
+	}
+	uint64_t lo = N[a].next_seq;
+	long     k0 = atomic_load(&Q->nlog);
+	for (int i = 0; i < b; i++) send_one(&N[a], pick_size(r, 0), (int) vf_below(r, 3), NULL, false, 0);
+	settle(1000); // heuristic: let them arrive (and overflow) before q reads
+	atomic_store(&Q->rpause, 0);
+	if (barrier(1u << a, 2000, 6) < 0) return true; // P3's probe judges a dead path
+	long k1 = atomic_load(&Q->nlog), got = 0;
+	for (long k = k0; k < k1; k++) got += Q->log[k].from == a && Q->log[k].seq >= lo && Q->log[k].seq < lo + (uint64_t) b;
+	int need = b < Q->recvbuf ? b : Q->recvbuf;
+	if (got < need) {
+		VIOL("not-offered", "recv-queue-room", "%s: node %d (not receiving, empty receive queue, RECVBUF %d) was sent %d messages by node %d (SENDBUF %d, idle path, nobody else sending); after it resumed, and a later probe of node %d had arrived, it had logged only %ld of them: a message was dropped while the queue had room", g_mode, q, Q->recvbuf, b, a, N[a].sendbuf, a, got);
+		return false;
+	}
+	vf_stat("recv_overflow_bursts_judged", 1);
+	vf_stat("lockstep_delivered", need);
+	if (got < b) {
+		vf_stat("recv_side_drops", b - got);
+		vf_class("overflow/recv-side/recvbuf=%d", Q->recvbuf);
+	}
+	return true;
+}
+
+// Progress of the slowest running flow-controlled sender since 'base', or -1
+// when all of them have finished.
+static long
+flow_progress(uint32_t run, const long *base)
+{
+	long lo = -1;
+	for (int s = 0; s < MAXN; s++) {
+		if (!(run & (1u << s)) || atomic_load(&N[s].sdone)) continue;
+		long d = atomic_load(&N[s].sent) - base[s];
+		if (lo < 0 || d < lo) lo = d;
+	}
+	return lo;
+}
+
+static bool
+flow_reach(uint32_t run, const long *base, long goal)
+{
+	for (;;) {
+		long p = flow_progress(run, base);
+		if (p < 0) return false; // everybody finished
+		if (p >= goal) return true;
+		vf_usleep(50);
+	}
+}
+
+// A flow-controlled all-at-once phase (see flow_wait) during which pipes come
+// and go: every (sender, receiver) pair whose own link is not touched must
+// still log everything - a pipe that leaves or arrives only changes the load
+// on ITS queue.
+//   kind 0  a silent resident v (in nobody's mask) has pipes of its links
+//           closed at either end; they are re-dialled
+//   kind 1  a silent node joins 1..n residents, listens, and leaves
+//   kind 2  the link a-b goes away for good (dialer closed); a and b leave
+//           each other's mask only AFTER the close, so that until then they
+//           stay flow-controlled towards each other
+// The paths must be idle (up to 'stale' probes).  Returns false after a verdict.
+static bool
+mesh_event_phase(int n, int *nextid, int stale, vf_rng *r)
+{
+	int      fw[MAXN], kind, v = -1, evs = (int) vf_range(r, 1, 3);
+	int      nmsg = (int) vf_range(r, 120, vf_tier ? 600 : 300);
+	uint32_t all = (1u << n) - 1, excl = 0, run;
+	long     base[MAXN], hit = 0, acts = 0;
+	static const char *kname[] = { "resident-pipes-closed", "silent-joiner", "link-removed" };
+
+	mesh_windows(n, stale, fw);
+	kind = n < 3 ? 1 : (int) vf_below(r, 3);
+	if (kind == 1 && *nextid >= MAXN) kind = n < 3 ? -1 : 2 * (int) vf_below(r, 2);
+	if (kind < 0) return true;
+	if (kind == 0) {
+		// prefer a victim with neighbours that have someone else to talk to
+		v = (int) vf_below(r, (uint32_t) n);
+		fw[v] = 0;
+		excl  = 1u << v;
+		N[v].pipekeyed = true;
+	}
+	long up0[MAXN]; // pipes every resident has now (degree counts joiners that left)
+	for (int s = 0; s < n; s++) {
+		base[s] = atomic_load(&N[s].sent);
+		up0[s]  = atomic_load(&N[s].adds) - atomic_load(&N[s].rems);
+	}
+	g_flow_what = "flow-with-pipe-event";
+	g_ev_note[0] = 0;
+	run = flow_start(all, fw, nmsg, excl);
+	for (int e = 0; e < evs && run; e++) {
+		if (!flow_reach(run, base, (long) nmsg * (e + 1) / (evs + 2))) break;
+		if (kind == 0) {
+			int peers[MAXN], np = 0;
+			for (int q = 0; q < n; q++) {
+				if (q != v && expect[v][q]) peers[np++] = q;
+			}
+			if (np == 0) break;
+			int      q = peers[vf_below(r, (uint32_t) np)];
+			bool     at_v = vf_chance(r, 1, 2);
+			nng_pipe p = at_v ? find_pipe(&N[v], q) : find_pipe(&N[q], v);
+			if (nng_pipe_id(p) > 0 && nng_pipe_close(p) == 0) acts++; else continue;
+			ev_note(" [pipe %u of link %d-%d closed at silent node %d's %s end]", (unsigned) nng_pipe_id(p), v, q, v, at_v ? "own" : "peer's");
+			if (flow_progress(run, base) >= 0) hit++;
+			// not judged: let the link come back so that the next close
+			// finds a pipe
+			uint64_t end = vf_now_ns() + 300000000ull;
+			while (vf_now_ns() < end && (atomic_load(&N[v].adds) - atomic_load(&N[v].rems) < up0[v])) vf_usleep(100);
+		} else if (kind == 1) {
+			if (*nextid >= MAXN) break;
+			int   id = (*nextid)++, links = 0;
+			node *j  = node_open(id, false, (int) vf_range(r, 1, 16), (int) vf_range(r, 1, 16), true);
+			j->rstyle = (int) vf_below(r, 3);
+			j->rkey   = vf_rand(r);
+			start_receiver(j);
+			long was[MAXN];
+			for (int i = 0; i < n; i++) {
+				was[i] = atomic_load(&N[i].adds);
+				if (vf_chance(r, 1, 2) || (i == n - 1 && !links)) {
+					link_nodes(&N[i], j, pick_tran(r));
+					expect[i][id] = expect[id][i] = true;
+					links++;
+				}
+			}
+			// attached on both sides (the joiner's dial is synchronous)
+			uint64_t end = vf_now_ns() + 5000000000ull;
+			bool     up;
+			for (;;) {
+				up = atomic_load(&j->adds) >= links;
+				for (int i = 0; i < n; i++) up = up && (!expect[i][id] || atomic_load(&N[i].adds) > was[i]);
+				if (up || vf_now_ns() > end) break;
+				vf_usleep(100);
+			}
+			if (up && flow_progress(run, base) >= 0) hit++;
+			acts++;
+			ev_note(" [silent node %d joined %d resident(s)%s", id, links, up ? "" : " (not up)");
+			// stays while the senders get a little further, then leaves
+			// while they keep sending to it
+			long p0 = flow_progress(run, base);
+			if (p0 >= 0) flow_reach(run, base, p0 + (long) vf_range(r, 1, (uint32_t) nmsg / 8 + 1));
+			stop_receiver(j);
+			if (nng_socket_close(j->s) != 0) vf_harness_fail("close silent joiner");
+			j->open = false;
+			ev_note(" and left]");
+			if (flow_progress(run, base) >= 0) hit++;
+		} else {
+			int la[MAXN * MAXN], lb[MAXN * MAXN], nl = 0;
+			for (int a = 0; a < n; a++) {
+				for (int b = a + 1; b < n; b++) {
+					if (expect[a][b] && (atomic_load(&N[a].flow_mask) & (1u << b))) la[nl] = a, lb[nl++] = b;
+				}
+			}
+			if (nl == 0) break;
+			int x = (int) vf_below(r, (uint32_t) nl), a = la[x], b = lb[x];
+			// (a dialer must not outlive its listener, see link_nodes; until
+			// the dialer is closed the link may come back for a moment: a
+			// and b are still flow-controlled towards each other then)
+			if (vf_chance(r, 1, 2)) {
+				nng_pipe p = vf_chance(r, 1, 2) ? find_pipe(&N[a], b) : find_pipe(&N[b], a);
+				if (nng_pipe_id(p) > 0) (void) nng_pipe_close(p);
+				if (vf_chance(r, 1, 2)) vf_usleep((int) vf_below(r, 3000));
+			}
+			(void) nng_dialer_close(lnk_d[a][b]);
+			if (vf_chance(r, 1, 2)) (void) nng_listener_close(lnk_l[a][b]);
+			// the dialer's pipes are flagged closed and queued for the
+			// reaper now, and no new one can appear; when nothing is left
+			// to reap they are detached from the dialing socket, which
+			// then neither sends to nor reads from the other one.  Only
+			// then may a and b stop waiting for each other.
+			uint64_t end = vf_now_ns() + 20000000000ull;
+			while (atomic_load(&g_reaps_pending) > 0 && vf_now_ns() < end) vf_usleep(50);
+			if (atomic_load(&g_reaps_pending) > 0) {
+				atomic_store(&g_flow_abandon, 1);
+				vf_stat("flow_event_phase_abandoned", 1);
+				hit = 0;
+				break;
+			}
+			atomic_fetch_and(&N[a].flow_mask, ~(1u << b));
+			atomic_fetch_and(&N[b].flow_mask, ~(1u << a));
+			ev_note(" [link %d-%d removed]", a, b);
+			acts++;
+			if (flow_progress(run, base) >= 0) hit++;
+		}
+	}
+	long pairs = 0;
+	for (int s = 0; s < MAXN; s++) {
+		if (run & (1u << s)) {
+			join_sender(&N[s]);
+			N[s].flow_w = 0;
+			pairs += __builtin_popcount(atomic_load(&N[s].flow_mask));
+		}
+	}
+	g_flow_what = "flow-controlled";
+	g_ev_note[0] = 0;
+	bool abandoned = atomic_exchange(&g_flow_abandon, 0);
+	if (abandoned) return !g_abort;
+	if (run) vf_stat("flow_phases", 1);
+	if (run && hit && pairs && !g_abort) {
+		vf_stat("flow_phases_with_pipe_event", 1);
+		vf_stat("flow_pipe_events_during_phase", hit);
+		vf_class("mesh/flow-with-pipe-event/%s/n=%d", kname[kind], n);
+	}
+	vf_stat(kind == 0 ? "flow_event_pipe_closes" : kind == 1 ? "flow_event_silent_joiners" : "flow_event_links_removed", acts);
+	return !g_abort;
 }
 
 static void
@@ -897,6 +1228,9 @@ mesh_case(long idx, vf_rng *r)
 		mesh_windows(n, 0, fw);
 		ok = flow_phase(all, fw, (int) vf_range(r, 40, vf_tier ? 400 : 150));
 	}
+
+	// P1c: overflow of a receive queue alone (the receiver pauses)
+	if (ok && vf_chance(r, 1, 2)) ok = recv_overflow_phase(n, r);
 
 	// P2: free-running bursts from every node, overflow allowed
 	int nextid = n, joined = 0, kills = 0, resizes = 0;
@@ -1025,7 +1359,9 @@ mesh_case(long idx, vf_rng *r)
 				ok = flow_phase(all, fw, (int) vf_range(r, 40, vf_tier ? 400 : 150));
 				if (churn) vf_stat("flow_phases_after_churn", 1);
 			}
-			barrier(all, 2000, 2);
+			int stale = barrier(all, 2000, 2);
+			// P4: pipes leave / arrive DURING a phase in which loss is judged
+			if (ok && stale >= 0) ok = mesh_event_phase(n, &nextid, stale, r);
 		}
 	}
 	vf_pt_off();
@@ -1099,13 +1435,29 @@ forwarder_main(void *arg)
 }
 
 // direct send on the raw socket: kind 0 no header, 1 header = pipe of leaf
-// 'excl', 2 header names no attached pipe
+// 'excl', 2 header names no attached pipe, 3 header that is not one word
+// ('excl' = its length 1-3, 8 or 12; own stream, see record())
 static uint64_t
 direct_send(node *f, int kind, int excl, uint32_t bogus)
 {
 	uint64_t seq;
-	nng_msg *m = make_msg(f, 24 + (size_t) (bogus % 200), &seq);
+	nng_msg *m;
 	int      rv;
+	if (kind == 3) {
+		static const uint8_t junk[12] = { 0xff, 0xfe, 0xfd, 0xfc, 0xa1, 0xa2, 0xa3, 0xa4, 0xa5, 0xa6, 0xa7, 0xa8 };
+		t_second = 1;
+		m        = make_msg(f, 24 + (size_t) (bogus % 200), &seq);
+		t_second = 0;
+		// 8 / 12 bytes: the first word (names no pipe: top bit set) is taken
+		nng_msg_header_append(m, junk, (size_t) excl);
+		odd_off[seq] = (uint8_t) (excl < 4 ? excl : excl - 4);
+		atomic_store(&g_odd_sent, 1);
+		rv = nng_sendmsg(f->s, m, 0);
+		if (rv != 0) nng_msg_free(m);
+		send_result(f, rv, "raw nng_sendmsg");
+		return seq;
+	}
+	m = make_msg(f, 24 + (size_t) (bogus % 200), &seq);
 	if (kind == 1) {
 		nng_msg_header_append_u32(m, atomic_load(&pipe_of[excl]));
 		dexcl[seq] = (int8_t) excl;
@@ -1141,6 +1493,7 @@ raw_case(long idx, vf_rng *r)
 	g_mode      = vname[variant];
 	g_fwd_known = variant == 0;
 	g_fwd_id    = fa;
+	g_dev_stat  = variant == 3 ? "device_reflector_delivered" : variant == 4 ? "device_bridge_delivered" : NULL;
 	if (variant == 4 && k < 2) k = 2;
 	vf_case_begin(idx, "raw %s leaves=%d bufs_first=%d jitter=%d/%dus", g_mode, k, bufs_first, jit_pm, jit_us);
 	bool roomy = vf_chance(r, 2, 5); // queues deep enough for a flow-controlled phase
@@ -1196,14 +1549,26 @@ raw_case(long idx, vf_rng *r)
 		if (sb[i] < depth) depth = sb[i];
 		if (rb[i] < depth) depth = rb[i];
 	}
+	// the bridge: leaf -> F -> (device holds one) -> F2's pipe queues -> leaf
+	// and back: every message of one side shares F's (F2's) receive queue
+	// and the other socket's per-pipe send queues
+	int nside[2] = { 0, 0 };
+	for (int i = 0; i < k; i++) nside[side[i]]++;
+	if (variant == 4) {
+		if (sb[fb] < depth) depth = sb[fb];
+		if (rb[fb] < depth) depth = rb[fb];
+	}
 	bool     ok = true;
 	uint32_t leaves = (1u << k) - 1;
-	long     direct[3] = { 0, 0, 0 }, bogus_got = 0, bogus_sent = 0;
+	long     direct[4] = { 0, 0, 0, 0 }, foreign_ok = 0;
 
-	// P1: each leaf in turn; star variants: every other leaf must get all
-	for (int i = 0; i < k && ok && variant != 4; i++) {
+	// P1: each leaf in turn; every other leaf (bridge: every leaf on the
+	// other socket - the header names a pipe that is not one of the sending
+	// socket's) must get all
+	for (int i = 0; i < k && ok; i++) {
 		int b = vf_chance(r, 1, 2) ? depth : (int) vf_range(r, 1, (uint32_t) depth);
-		ok = lockstep(i, b, r, "forwarded");
+		ok = lockstep(i, b, r, variant == 4 ? "bridged" : "forwarded");
+		if (ok && variant == 4) vf_stat("bridge_lockstep_delivered", (long) b * __builtin_popcount(expect_mask(i)));
 	}
 	// P1b: direct raw sends (the harness forwarder owns the socket with us)
 	for (int rep = 0; rep < 4 && ok && variant == 0; rep++) {
@@ -1225,18 +1590,68 @@ raw_case(long idx, vf_rng *r)
 	// socket's queues nor a leaf's can be full: nothing may be dropped, and
 	// the origin pipes are busy while their own messages are forwarded
 	int fw[MAXN];
-	if (ok && variant != 4) {
-		for (int i = 0; i < k; i++) fw[i] = sb[i] < depth / k ? sb[i] : depth / k;
+	if (ok) {
+		int share = variant == 4 ? depth / (nside[0] > nside[1] ? nside[0] : nside[1]) : depth / k;
+		for (int i = 0; i < k; i++) fw[i] = sb[i] < share ? sb[i] : share;
+		if (variant == 4) g_flow_what = "flow-controlled-bridge";
 		ok = flow_phase(leaves, fw, (int) vf_range(r, 40, vf_tier ? 300 : 120));
+		g_flow_what = "flow-controlled";
 	}
-	// P1d: a header that names no attached pipe.  Where this goes is not
-	// stated by the property (safety only), so nothing exact may follow it.
-	for (int rep = 0; rep < 2 && ok && variant == 0; rep++) {
-		uint64_t q = direct_send(F, 2, -1, 0x7fff0000u | vf_below(r, 0xffff));
-		bogus_sent++;
-		settle(300);
-		for (int i = 0; i < k; i++) bogus_got += atomic_load(&N[i].hi_from[fa]) > q;
+	// P1d: a header that names a pipe which is not attached to this socket
+	// (what a two-socket device sends): "every connected peer except that
+	// pipe" is every connected peer.  The path is idle (flow phase: all
+	// logged).  The word: top bit set (never a pipe id), the id of a pipe of
+	// another socket (the leaf's end of a link), or 0.
+	for (int rep = 0; rep < 3 && ok && variant == 0; rep++) {
+		uint32_t word = 0x80000000u | (uint32_t) vf_rand(r);
+		if (rep == 1) {
+			node *x = &N[vf_below(r, (uint32_t) k)];
+			pthread_mutex_lock(x->pmtx);
+			if (x->npipes > 0) word = (uint32_t) nng_pipe_id(x->pipes[0]);
+			pthread_mutex_unlock(x->pmtx);
+		} else if (rep == 2) {
+			word = 0;
+		}
+		window_open(fa, leaves);
+		direct_send(F, 2, -1, word);
+		ok = window_wait(fa, leaves, 1, "raw-foreign-pipe-header");
 		direct[2]++;
+		if (ok) {
+			foreign_ok += k;
+			vf_stat("lockstep_delivered", k);
+		}
+	}
+	// P1e: ... and the id of a pipe that was attached and is gone (ids are
+	// not reused): close the raw socket's pipe to one leaf, wait for the
+	// re-dialled one, name the old id.  Everybody, also that leaf, must get it.
+	if (ok && variant == 0 && vf_chance(r, 1, 2)) {
+		int      x   = (int) vf_below(r, (uint32_t) k);
+		nng_pipe p   = find_pipe(F, x);
+		uint32_t old = (uint32_t) nng_pipe_id(p);
+		long     fr0 = atomic_load(&F->rems), xr0 = atomic_load(&N[x].rems);
+		if (nng_pipe_id(p) > 0 && nng_pipe_close(p) == 0) {
+			uint64_t end = vf_now_ns() + 20000000000ull;
+			bool     up  = false;
+			while (!up && vf_now_ns() < end) {
+				up = atomic_load(&F->rems) > fr0 && atomic_load(&N[x].rems) > xr0 && atomic_load(&F->adds) - atomic_load(&F->rems) >= F->degree && atomic_load(&N[x].adds) - atomic_load(&N[x].rems) >= N[x].degree;
+				if (!up) vf_usleep(200);
+			}
+			nng_pipe np = find_pipe(F, x);
+			atomic_store(&pipe_of[x], nng_pipe_id(np) > 0 ? (uint32_t) nng_pipe_id(np) : 0);
+			if (up && nng_pipe_id(np) > 0 && (uint32_t) nng_pipe_id(np) != old) {
+				window_open(fa, leaves);
+				direct_send(F, 2, -1, old);
+				ok = window_wait(fa, leaves, 1, "raw-closed-pipe-header");
+				direct[2]++;
+				if (ok) {
+					foreign_ok += k;
+					vf_stat("raw_direct_closed_pipe_header_delivered", k);
+					vf_stat("lockstep_delivered", k);
+				}
+			} else {
+				vf_stat("raw_relink_not_seen", 1);
+			}
+		}
 	}
 
 	// P2: all leaves at once, forwarder sometimes slow, direct sends mixed in
@@ -1252,9 +1667,10 @@ raw_case(long idx, vf_rng *r)
 		if (variant == 0) {
 			int nd = (int) vf_range(r, 5, 40);
 			for (int a = 0; a < nd; a++) {
-				int kind = (int) vf_below(r, 3), excl = (int) vf_below(r, (uint32_t) k);
+				int kind = (int) vf_below(r, 4), excl = (int) vf_below(r, (uint32_t) k);
 				if (kind == 1 && atomic_load(&pipe_of[excl]) == 0) kind = 0;
-				direct_send(F, kind, excl, 0x7fff0000u | vf_below(r, 0xffff));
+				if (kind == 3) excl = (int[]){ 1, 2, 3, 8, 12 }[vf_below(r, 5)];
+				direct_send(F, kind, excl, 0x80000000u | vf_below(r, 0xffff));
 				direct[kind]++;
 				vf_usleep((int) vf_below(r, 400));
 			}
@@ -1263,23 +1679,27 @@ raw_case(long idx, vf_rng *r)
 		atomic_store(&fwd_lazy, 0);
 	}
 
-	// P3: after the overflow, star variants deliver exactly again
-	if (ok && variant != 4) {
+	// P3: after the overflow, all variants deliver exactly again
+	if (ok) {
 		int extra = barrier(leaves, 2000, 6);
 		if (extra < 0) {
-			VIOL("not-offered", "after-overflow-probe", "%s/after-overflow: a single small message per leaf, repeated 6 times 2 s apart, never reached some other leaf through the raw socket", g_mode);
+			VIOL("not-offered", variant == 4 ? "after-overflow-probe-bridge" : "after-overflow-probe", "%s/after-overflow: a single small message per leaf, repeated 6 times 2 s apart, never reached some other leaf through the raw socket%s", g_mode, variant == 4 ? "s of the bridge" : "");
 		} else {
 			vf_stat("barrier_extra_probes", extra);
 			for (int i = 0; i < k && ok; i++) {
 				int d = depth - extra;
 				if (d < 1) break;
-				ok = lockstep(i, vf_chance(r, 1, 2) ? d : (int) vf_range(r, 1, (uint32_t) d), r, "forwarded-after-overflow");
+				int b = vf_chance(r, 1, 2) ? d : (int) vf_range(r, 1, (uint32_t) d);
+				ok = lockstep(i, b, r, variant == 4 ? "bridged-after-overflow" : "forwarded-after-overflow");
+				if (ok && variant == 4) vf_stat("bridge_lockstep_delivered", (long) b * __builtin_popcount(expect_mask(i)));
 			}
-			if (ok && extra == 0) ok = flow_phase(leaves, fw, (int) vf_range(r, 40, vf_tier ? 300 : 120));
+			if (ok && extra == 0) {
+				if (variant == 4) g_flow_what = "flow-controlled-bridge";
+				ok = flow_phase(leaves, fw, (int) vf_range(r, 40, vf_tier ? 300 : 120));
+				g_flow_what = "flow-controlled";
+			}
 			barrier(leaves, 2000, 2);
 		}
-	} else if (ok) {
-		if (barrier(leaves, 500, 3) < 0) vf_stat("bridge_drain_incomplete", 1);
 	}
 	vf_pt_off();
 	for (int i = 0; i < k; i++) stop_receiver(&N[i]);
@@ -1304,12 +1724,12 @@ raw_case(long idx, vf_rng *r)
 	vf_stat("raw_direct_no_header", direct[0]);
 	vf_stat("raw_direct_origin_header", direct[1]);
 	vf_stat("raw_direct_unknown_pipe", direct[2]);
-	vf_stat("raw_unknown_pipe_deliveries", bogus_got);
+	vf_stat("raw_direct_foreign_header_delivered", foreign_ok);
+	vf_stat("raw_direct_odd_header", direct[3]);
 	int nraw = 0;
 	for (int i = 0; i < k; i++) nraw += N[i].raw;
 	vf_class("raw/%s/leaves=%d/rawleaves=%d/%s%s%s/%s", g_mode, k, nraw, (trans_seen & (1 << VF_T_INPROC)) ? "i" : "", (trans_seen & (1 << VF_T_TCP)) ? "t" : "", (trans_seen & (1 << VF_T_IPC)) ? "u" : "", t.drops ? "drops" : "lossless");
 	vf_class("raw/%s/depth=%d/%s", g_mode, depth, t.drops ? "drops" : "lossless");
-	if (bogus_sent) vf_class("raw/unknown-pipe-header/%s", bogus_got == bogus_sent * k ? "went-to-all" : bogus_got ? "went-to-some" : "went-nowhere");
 	if ((idx & 7) == 0) {
 		vf_sample("{\"mode\":\"raw\",\"variant\":\"%s\",\"leaves\":%d,\"depth\":%d,\"received\":%ld,\"offered\":%ld,\"dropped\":%ld,\"direct\":[%ld,%ld,%ld]}", g_mode, k, depth, t.checked, t.offered, t.drops, direct[0], direct[1], direct[2]);
 	}
@@ -1520,6 +1940,7 @@ int
 main(int argc, char **argv)
 {
 	vf_init(argc, argv);
+	vf_ev_hook(ev_hook);
 	for (int i = 0; i < MAXN; i++) pthread_mutex_init(&pmtxs[i], NULL);
 	vf_nng_init(4, 2, 2);
 	for (long idx = 0; idx < vf_cases; idx++) {
@@ -1545,6 +1966,8 @@ main(int argc, char **argv)
 	vf_stat("raw_headers_checked", atomic_load(&fwd_hdr_ok));
 	vf_stat("raw_forwarded", atomic_load(&fwd_count));
 	vf_stat("cooked_sends_with_header", atomic_load(&cooked_hdr_sends));
+	vf_stat("raw_odd_header_rest_in_front_of_body", atomic_load(&odd_leaked));
+	vf_stat("raw_odd_header_arrived_plain", atomic_load(&odd_plain));
 	vf_quiesce(1, 10000);
 	vf_nng_fini("C09");
 	return vf_finish();
